@@ -166,7 +166,11 @@ func c14Rings(c *fw.Ctx, idx int) {
 	var ring []ipt
 	kind := "star"
 	if r.Bool() {
-		ring = starRing(r, ox, oy, int64(r.Range(10, 50000)), r.Range(3, 24))
+		nv := r.Range(3, 24)
+		if r.Chance(1, 6) {
+			nv = r.Range(25, 90) // rings of dozens of vertices (sizes 32 and 64 among them)
+		}
+		ring = starRing(r, ox, oy, int64(r.Range(10, 50000)), nv)
 	} else {
 		kind = "staircase"
 		ring = staircase(r, ox, oy, int64(r.Range(4, 50000)), r.Range(1, 8), int64(r.Range(1, 40000)))
@@ -231,6 +235,35 @@ func c14Rings(c *fw.Ctx, idx int) {
 	if !exact.RatAbsDiffLE(sa, want, exact.R(tol)) {
 		c.Fail("wrong-signed-area", "SignedArea = %v, exact (clockwise positive) %v, bound %g", sa, exact.F64(want), tol)
 		return
+	}
+	// the caller reverses the ring in place (same array, same length, same first
+	// vertex) and asks again: the direction is now the other one
+	if r.Chance(1, 3) {
+		st := layout.Stride()
+		m := len(flat) / st
+		for i, j := 0, m-1; i < j; i, j = i+1, j-1 {
+			for k := 0; k < st; k++ {
+				flat[i*st+k], flat[j*st+k] = flat[j*st+k], flat[i*st+k]
+			}
+		}
+		var got2 bool
+		var sa2 float64
+		if c.Guard("panic", func() {
+			got2 = xy.IsRingCounterClockwise(layout, flat)
+			sa2 = xy.SignedArea(layout, flat)
+		}) {
+			return
+		}
+		c.Eval(2)
+		c.Count("rings_reversed_in_place_and_asked_again")
+		if got2 == wantCCW {
+			c.Fail("wrong-direction", "after the ring was reversed in place IsRingCounterClockwise is still %v (exact signed area before the reversal %s/2)", got2, a2.String())
+			return
+		}
+		if !exact.RatAbsDiffLE(sa2, new(big.Rat).Neg(want), exact.R(tol)) {
+			c.Fail("wrong-signed-area", "after the ring was reversed in place SignedArea = %v, exact %v, bound %g", sa2, -exact.F64(want), tol)
+			return
+		}
 	}
 	if c.WantSample() {
 		c.Sample(c.Input())
@@ -552,6 +585,16 @@ func c14Polygons(c *fw.Ctx, idx int) {
 	var err error
 	if c.Guard("panic", func() { got, err = xy.Centroid(mp) }) {
 		return
+	}
+	if err == nil {
+		hc := got
+		if !holdRecheckScribble(c, "c14-Centroid", "xy.Centroid result", func() string { return fw.Fs(hc) }, func() {
+			for i := range hc[:cap(hc)] {
+				hc[:cap(hc)][i] = -4.25e200
+			}
+		}) {
+			return
+		}
 	}
 	if err != nil {
 		c.Fail("centroid-error", "Centroid(MultiPolygon): %v", err)
